@@ -59,6 +59,7 @@ theorem set_mapV (f : A → B) (MAX CLEAR : Nat) (s : State K A) (k : K) (v : A)
   simp only [mapV, dictSet_mapV, foldl_dictDel_mapV]
   split <;> rfl
 
+omit [DecidableEq K] in
 theorem mapV_congr {f g : A → B} {s : State K A} (h : ∀ p ∈ s.map, f p.2 = g p.2) : mapV f s = mapV g s := by
   unfold mapV
   congr 1
@@ -77,8 +78,6 @@ theorem dictGet_mem {d : List (K × A)} {k : K} {v : A} (h : dictGet d k = some 
       rw [hk, h]; exact List.mem_cons_self
     · simp only [hk, ite_false] at h
       exact List.mem_cons_of_mem _ (ih h)
-
-theorem get_fst_map_eq (s : State K A) (k : K) : (get s k).1.map = s.map := get_fst_map s k
 
 theorem mem_dictSet {d : List (K × A)} {k : K} {v : A} {p : K × A} (h : p ∈ dictSet d k v) : p = (k, v) ∨ p ∈ d := by
   induction d with
@@ -213,6 +212,7 @@ structure HWorld.OK (w : HWorld K O) : Prop where
   cache : ∀ p ∈ w.cache.map, p.2 < w.heap.exprs.length
   slots : ∀ x ∈ w.slots, x < w.heap.exprs.length
 
+omit [DecidableEq K] in
 theorem HWorld.OK.empty : (HWorld.empty : HWorld K O).OK :=
   ⟨Heap.WF.empty, (by intro p h; cases h), (by intro x h; cases h)⟩
 
